@@ -39,10 +39,13 @@ def make(kind, k, strand, coding, kw, chunk):
     par = chunk_parent(kw["w"], L) if chunk else None
     if kind == "tx":
         if coding:
-            a, b = coding
+            a, b = coding[:2]
             cds = _cds_blocks(ex, a, b, kw["co"], kw["ce"])
+            frames = [CDSFrame.ZERO] * len(cds)
+            if len(coding) > 2:  # 5'-partial CDS: the 5'-most CDS block carries start frame 1 or 2 (thick range must still be the CDS bounds)
+                frames[0 if strand is PLUS else -1] = CDSFrame(coding[2])
             o = TranscriptInterval([x[0] for x in ex], [x[1] for x in ex], strand, [c[0] for c in cds], [c[1] for c in cds],
-                                   [CDSFrame.ZERO] * len(cds), transcript_symbol="tx1", sequence_name="chr1", guid=5,
+                                   frames, transcript_symbol="tx1", sequence_name="chr1", guid=5,
                                    parent_or_seq_chunk_parent=par)
         else:
             cds = None
@@ -64,7 +67,7 @@ def pre_fn(k, coding, chunk, min_gap=1):
             if not (kw["w"] >= 0 and kw["w"] <= kw["s0"] and end <= kw["w"] + L):
                 return False
         if coding:
-            a, b = coding
+            a, b = coding[:2]
             co, ce = kw["co"], kw["ce"]
             if not (0 <= co and co < kw["l%d" % a] and 0 < ce and ce <= kw["l%d" % b]):
                 return False
@@ -168,10 +171,14 @@ def obligations(tier):
             if quick and k == 3:
                 spans = [(0, 2), (1, 1), (0, 1)]
             variants += [("tx", sp) for sp in spans]
+            # 5'-partial CDS (start frame 1 / 2 on the 5'-most CDS block)
+            variants += [("tx", (0, k - 1, f)) for f in ((1, 2) if (k <= 2 or not quick) else ())]
             for kind, coding in variants:
                 for mode in (None, "chunk_chrom", "chunk_rel"):
                     for text in (False, True):
                         if text and (mode == "chunk_chrom" or (quick and k == 3 and coding not in (None, (0, 2)))):
+                            continue
+                        if coding and len(coding) > 2 and (text or (quick and mode) or mode == "chunk_chrom"):
                             continue
                         if quick and k == 3 and mode and coding and not (coding == (0, 2) and mode == "chunk_rel" and not text
                                                                          and strand is MINUS):
@@ -183,7 +190,7 @@ def obligations(tier):
                             params["w"] = int
                         if coding:
                             params.update(co=int, ce=int)
-                        tag = "%s_k%d_%s_%s_%s_%s" % (kind, k, sn, "cds%d-%d" % coding if coding else "nc",
+                        tag = "%s_k%d_%s_%s_%s_%s" % (kind, k, sn, ("cds%d-%d" % coding[:2] + ("f%d" % coding[2] if len(coding) > 2 else "")) if coding else "nc",
                                                      mode or "nochunk", "text" if text else "obj")
                         ex = {"s0": 103, "w": 100}
                         for i in range(k):
